@@ -106,6 +106,7 @@ type mframe struct {
 type mach struct {
 	c          *Ctx
 	globals    map[*ssa.Global]*mv
+	onceDone   map[*mv]bool // sync.Once values whose function has run
 	inited     map[*ssa.Package]bool
 	symHeap    map[string]*mv
 	steps      int
